@@ -249,7 +249,7 @@ def m_len(eng, st, args, kw, fr):
         if is_mp_function(m):
             return eng.call(st, m, [v], {}, fr)
     try:
-        return _ret(st, len(v))
+        return _ret(st, len(eng.overlay_seq(st, v)))
     except TypeError as e:
         return [(st, RAISE, e)]
 
